@@ -21,7 +21,7 @@ RULE = ("signature shape (0-4 plain/defaulted parameters, optional *args, **kw, 
         "kind, star/kw features, changer sequence, call shapes present, outcome)")
 ASSUMPTIONS = ["removed parameters are ones the body does not read; added parameters are not read",
                "receivers of method calls are statically determined (instance assigned once from the class)"]
-BUDGET = {"quick": (3000, 200), "thorough": (150000, 480)}
+BUDGET = {"quick": (3000, 240), "thorough": (51000, 900)}
 EXHAUSTIVE = {}
 CASE_TIMEOUT = 300
 REQUIRE = {"performed_and_run": 300}
